@@ -6,6 +6,9 @@ import (
 	"encoding/json"
 	"fmt"
 	"math"
+	"strings"
+	"sync"
+	"time"
 
 	"github.com/mandykoh/prism/ciexyz"
 	"github.com/mandykoh/prism/linear"
@@ -175,6 +178,52 @@ func runC03(r *core.Run) {
 	r.Assumptions = []string{"published chromaticities as transcribed in props/c03.go (6- and 4-digit variants accepted)", "round-trip tolerance 2e-6 scales with max(1, |input|, |intermediate|) for out-of-range colours (proportional error, as stated)"}
 	maxCoef := map[string]float64{}
 	worst := map[string]float64{}
+	// The very first XYZ calls of the process are made by eight goroutines at once, in a
+	// variant-dependent direction (lazily derived matrices must not be observable), and judged
+	// against the float64 derivation from the declared primaries.
+	{
+		fromFirst := strings.Contains(r.Variant, "xyzfirst")
+		var wg sync.WaitGroup
+		for g := 0; g < 8; g++ {
+			wg.Add(1)
+			go func(g int) {
+				defer wg.Done()
+				defer func() {
+					if p := recover(); p != nil {
+						r.Violate("first-use", "panic", fmt.Sprintf("first XYZ conversion panicked: %v", p), c03Case{Kind: "first-use"})
+					}
+				}()
+				for _, s := range libSpaces {
+					rr, gg, bb, ww := c04DeclXY(s)
+					ref, ok := refcolor.RGBToXYZ(rr, gg, bb, ww)
+					if !ok {
+						continue
+					}
+					refInv, _ := ref.Inv()
+					in := [3]float32{0.25 + float32(g)/16, 0.5, 0.75 - float32(g)/16}
+					v := refcolor.Vec{float64(in[0]), float64(in[1]), float64(in[2])}
+					check := func(dir string, got [3]float32, want refcolor.Vec) {
+						for i := 0; i < 3; i++ {
+							if !(math.Abs(float64(got[i])-want[i]) <= 1e-5) {
+								r.Violate("first-use", s.Name+"/first-use-"+dir, fmt.Sprintf("%s: the first %s conversions of the process (8 goroutines at once, variant %q) gave %v for %v, the declared primaries fix %v", s.Name, dir, r.Variant, got, in, want), c03Case{s.Name, "first-use", in})
+								return
+							}
+						}
+					}
+					if fromFirst {
+						c := s.FromXYZ(ciexyz.Color{X: in[0], Y: in[1], Z: in[2]})
+						check("XYZ->RGB", [3]float32{c.R, c.G, c.B}, refInv.MulV(v))
+					}
+					x := s.ToXYZ(linear.RGB{R: in[0], G: in[1], B: in[2]})
+					check("RGB->XYZ", [3]float32{x.X, x.Y, x.Z}, ref.MulV(v))
+					c := s.FromXYZ(ciexyz.Color{X: in[0], Y: in[1], Z: in[2]})
+					check("XYZ->RGB", [3]float32{c.R, c.G, c.B}, refInv.MulV(v))
+				}
+			}(g)
+		}
+		wg.Wait()
+		r.AddEvals(8 * 8)
+	}
 	for _, s := range libSpaces {
 		vs, mc := c03Static(s)
 		maxCoef[s.Name] = mc
@@ -296,6 +345,26 @@ func runC03(r *core.Run) {
 			r.AddEvals(nb * 4)
 			r.NTCount(nb)
 		}
+		// large magnitudes: "without clamping, within proportional error for out-of-range ones"
+		{
+			rg := core.NewRNG(r.Seed, "C03", "large", s.Name)
+			var nb int64
+			for _, scale := range []float32{10, 100, 1000, 2047, 2049, 5000, 65536, 1e6, 1e9} {
+				for i := 0; i < 60; i++ {
+					in := [3]float32{scale * float32(rg.Uniform(-1, 1)), scale * float32(rg.Uniform(-1, 1)), scale * float32(rg.Uniform(-1, 1))}
+					if i%4 == 0 {
+						in = [3]float32{scale, scale / 2, scale / 4}
+					}
+					kind, msg, _ := c03Point(s, &p, in)
+					nb++
+					if kind != "" {
+						r.Violate("point", s.Name+"/"+kind+"/large", msg, c03Case{s.Name, kind, in})
+					}
+				}
+			}
+			r.AddEvals(nb * 4)
+			r.NTCount(nb)
+		}
 		// random out-of-range triples
 		shards := 16
 		res2 := make([]float64, shards)
@@ -321,6 +390,12 @@ func runC03(r *core.Run) {
 				worst[s.Name] = w
 			}
 		}
+	}
+	if r.Variant == "" {
+		for _, v := range []string{"xyzfirst", "xyzfirst+rev@2", "rev@1"} {
+			r.RunVariantChild(v, 10*time.Minute, false)
+		}
+		r.Obs("fresh_process_variants", []string{"xyzfirst", "xyzfirst+rev@2", "rev@1"})
 	}
 	r.Obs("max_coefficient_error_per_space", maxCoef)
 	r.Obs("max_scaled_linearity_or_roundtrip_error_per_space", worst)
@@ -355,5 +430,5 @@ func replayC03(stage string, raw json.RawMessage) (bool, string, error) {
 }
 
 func init() {
-	core.Register(&core.Property{ID: "C03", Level: "exploration", Run: runC03, Replay: replayC03})
+	core.Register(&core.Property{ID: "C03", Level: "exploration", Run: runC03, Replay: replayC03, Child: variantChild("C03", "exploration", runC03)})
 }
